@@ -14,6 +14,19 @@ import numpy as np
 
 from runtime import rt
 
+import signal  # noqa: E402
+
+CASE_TIMEOUT_S = 120
+
+
+class _CaseTimeout(BaseException):
+    pass
+
+
+def _on_alarm(signum, frame):  # noqa: ARG001
+    raise _CaseTimeout
+
+
 STANDINS: dict[str, list] = {}
 STANDINS_BY_NAME: dict[str, object] = {}
 REPLAY: dict[str, object] = {}
@@ -63,9 +76,16 @@ class StandIn:
         for case in self.cases(tier, seed):
             n += 1
             try:
-                msg = self.check(reg, case)
+                signal.signal(signal.SIGALRM, _on_alarm)
+                signal.alarm(CASE_TIMEOUT_S)
+                try:
+                    msg = self.check(reg, case)
+                finally:
+                    signal.alarm(0)
             except rt.ContractViolation as e:
                 msg = str(e)
+            except _CaseTimeout:
+                msg = f"[hang] the real code did not return within {CASE_TIMEOUT_S}s on this case (deadlock / endless loop)"
             except Exception as e:  # noqa: BLE001
                 # the real code raised on an admissible input of the scope: the specified result was not produced
                 import traceback
